@@ -67,6 +67,7 @@ ASSUMPTIONS = [
 TOL = 1e-9
 GAMMA = ("gexp", "gpois", "ggam")
 KINDS = ("gexp", "gpois", "ggam", "nn", "betabin", "mvn")
+FORMS = ("num", "list", "param")
 ROUTES = {
     "gexp": ("direct", "prior_affine", "unres_affine", "setter"),
     "gpois": ("direct", "prior_affine", "unres_affine", "setter"),
@@ -154,7 +155,21 @@ class Blk:
         self.defs, self.priors, self.likes, self.jacs = [], [], [], []
         self.g = None  # latent z = g(sampled variable)
         self.sid = None  # id(s) of the variable q writes: str or list of str
+        self.used_forms = set()
         self.build()
+
+    def hp(self, name, values):
+        """a hyper-parameter in the form drawn for it: bare JSON number (scalars only), list, or Parameter"""
+        v = _np(values).reshape(-1).tolist()
+        form = self.b.get("forms", {}).get(name.split("#")[0], "list")
+        if form == "num" and len(v) == 1:
+            self.used_forms.add("num")
+            return v[0]
+        if form == "param":
+            self.used_forms.add("param")
+            return tt.P(self.pre + "hp." + name.replace("#", ""), v)
+        self.used_forms.add("list")
+        return v
 
     def build(self):
         b, pre = self.b, self.pre
@@ -216,18 +231,18 @@ class Blk:
             a, r = _np(b["a"]), _np(b["b"])
             if route == "prior_affine":
                 r = r / scale
-            self.priors.append(_dist(pre + "prior", DISTR["gamma"], prior_x, {"concentration": a.tolist(), "rate": r.tolist()}))
+            self.priors.append(_dist(pre + "prior", DISTR["gamma"], prior_x, {"concentration": self.hp("prior.p0", a), "rate": self.hp("prior.p1", r)}))
         elif k == "nn":
             m0, s0 = _np(b["m0"]), _np(b["s0"])
             if route == "prior_affine":
                 m0, s0 = loc + scale * m0, abs(scale) * s0
             dn = DISTR["lognormal"] if route in ("prior_exp", "setter_exp") else DISTR["normal"]
-            self.priors.append(_dist(pre + "prior", dn, prior_x, {"loc": m0.tolist(), "scale": s0.tolist()}))
+            self.priors.append(_dist(pre + "prior", dn, prior_x, {"loc": self.hp("prior.p0", m0), "scale": self.hp("prior.p1", s0)}))
         elif k == "betabin":
             c1, c0 = _np(b["alpha"]), _np(b["beta"])
             if route == "prior_affine":
                 c1, c0 = c0, c1
-            self.priors.append(_dist(pre + "prior", DISTR["beta"], prior_x, {"concentration1": c1.tolist(), "concentration0": c0.tolist()}))
+            self.priors.append(_dist(pre + "prior", DISTR["beta"], prior_x, {"concentration1": self.hp("prior.p0", c1), "concentration0": self.hp("prior.p1", c0)}))
         else:
             S0 = _np(b["S0"])
             par = b.get("prior_par", "covariance_matrix")
@@ -250,14 +265,14 @@ class Blk:
             elif k == "gpois":
                 self.likes.append(_dist(lid, "torch.distributions.Poisson", did, {"rate": zid}))
             elif k == "ggam":
-                sh = _np(b["shape"]).tolist()
+                sh = self.hp("like.p#%d" % t, b["shape"])
                 self.likes.append(_dist(lid, DISTR["gamma"], did, {"concentration": sh, "rate": zid}))
             elif k == "nn":
                 dn = DISTR["lognormal"] if b.get("lik", "normal") == "lognormal" else DISTR["normal"]
-                self.likes.append(_dist(lid, dn, did, {"loc": zid, "scale": _np(b["sigma"]).tolist()}))
+                self.likes.append(_dist(lid, dn, did, {"loc": zid, "scale": self.hp("like.p#%d" % t, b["sigma"])}))
             elif k == "betabin":
                 N = _np(b["N"])
-                tot = N[:, 0].tolist() if d == 1 else N[t].tolist()
+                tot = self.hp("like.p#%d" % t, N[:, 0] if d == 1 else N[t])
                 if route == "setter" and b.get("logits"):
                     self.likes.append(_dist(lid, "torch.distributions.Binomial", did, {"total_count": tot, "logits": pre + "z"}))
                 else:
@@ -267,7 +282,7 @@ class Blk:
             for i in range(n):
                 lid = pre + "like%d" % i
                 if b.get("lik", "sym") == "diag":
-                    sd = np.sqrt(np.diag(Sg)).tolist()
+                    sd = self.hp("like.p#%d" % i, np.sqrt(np.diag(Sg)))
                     self.likes.append(_dist(lid, DISTR["normal"], tt.P(pre + "data%d" % i, X[i].tolist()), {"loc": zid, "scale": sd}))
                 else:
                     # N(x_i | mu, Sigma) = N(mu | x_i, Sigma): the sampled mean is the `x` of the term
@@ -439,6 +454,7 @@ def pretags(c):
         "routes": sorted({b["route"] for b in c["blocks"]}),
         "q_form": ("full-" if c.get("full") else "") + c.get("q_form", "joint"),
         "mode": c["mode"],
+        "f32_default": bool(c.get("f32")),
     }
 
 
@@ -474,9 +490,41 @@ def _fail_once(res, kind, detail, **tags):
         res.fail(kind, detail, **tags)
 
 
+def _explicit_f64(x):
+    """every Parameter of the specification says "dtype": "torch.float64" (the documented JSON attribute)"""
+    if isinstance(x, list):
+        for v in x:
+            _explicit_f64(v)
+    elif isinstance(x, dict):
+        if x.get("type") == "Parameter":
+            x["dtype"] = "torch.float64"
+        for v in x.values():
+            _explicit_f64(v)
+
+
+def _f32_log(k):
+    """log K rounded the way a float32 default dtype rounds it (classification of a known finding only)"""
+    return float(torch.tensor(float(k), dtype=torch.float32).log().item())
+
+
 def body(c):
+    """route f32: the process default dtype is float32 (a library user who never called
+    torch.set_default_dtype, or `torchtree --dtype float32`) while the model is float64 through the
+    explicit dtype of its Parameters; the default is restored whatever happens"""
+    tt.load_all()  # imports (and the float64 default they are made under) happen before the switch
+    old = torch.get_default_dtype()
+    try:
+        torch.set_default_dtype(torch.float32 if c.get("f32") else torch.float64)
+        return _body(c)
+    finally:
+        torch.set_default_dtype(old)
+
+
+def _body(c):
     torch.manual_seed(int(c["torch_seed"]))
     m = Model(c)
+    if c.get("f32"):
+        _explicit_f64(m.spec)
     o = c["objective"]
     tags = pretags(c)
     ss0 = _sshape(o["samples"])
@@ -486,7 +534,8 @@ def body(c):
         key=_round(c),
         labels=(tags["cls"], "samples%dd" % len(ss0), "int-samples" if not isinstance(o["samples"], list) else "list-samples",
                 "q:" + tags["q_form"], "joint:" + c.get("joint_style", "flat"), "override" if c.get("override") else "no-override",
-                "nblocks%d" % len(c["blocks"]))
+                "nblocks%d" % len(c["blocks"]), "default-float32" if c.get("f32") else "default-float64")
+        + tuple(sorted({"hyper:" + f for blk in m.blocks for f in blk.used_forms}))
         + tuple("fam:" + b["kind"] for b in c["blocks"])
         + tuple("route:" + b["route"] for b in c["blocks"]),
         tags=tags,
@@ -540,6 +589,11 @@ def body(c):
         if obj_now.get("entropy") and two:
             obj_now.pop("entropy")
         cands = cj.objective_candidates(obj_now, lp, lq, H)
+        if c.get("f32") and o["type"] == "CUBO":
+            # CUBO.from_json keeps the order n as a tensor of the default dtype: the objective of order
+            # float32(n) is an equally valid chi bound (and equals log Z at the posterior for any n)
+            n32 = float(np.float32(float(o.get("n", 2.0))))
+            cands = cands + cj.objective_candidates(dict(obj_now, n=n32), lp, lq, H)
         scale = max(1.0, 1e-3 * float(np.max(np.abs(lp))))
         if not np.all(np.isfinite(lp)) or not np.all(np.isfinite(lq)):
             res.fail("nonfinite", dict(where, log_p=np.asarray(lp).tolist(), log_q=np.asarray(lq).tolist()), **rt)
@@ -549,9 +603,17 @@ def body(c):
             return float(np.max(np.abs(val - expected))) / max(abs(expected), scale)
 
         outer = float(ss[0]) if two else 1.0
+
+        def logk(expected):
+            # value - expected == log K - float32(log K): the multi-sample ELBO's float32 constant
+            if not (two and o["type"] == "ELBO" and c.get("f32")):
+                return False
+            return bool(off(expected + math.log(ss[1]) - _f32_log(ss[1])) <= TOL)
+
         if min(off(e) for e in cands) > TOL:
             t_outer = bool(two and ss[0] > 1 and min(off(outer * e) for e in cands) <= TOL)
-            _fail_once(res, "mismatch:draws", dict(where, value=val.tolist(), recomputed=cands, log_z=log_z), times_outer=t_outer, **rt)
+            _fail_once(res, "mismatch:draws", dict(where, value=val.tolist(), recomputed=cands, log_z=log_z), times_outer=t_outer,
+                       f32_logk=any(logk(e) for e in cands), **rt)
         # ---- (a) exactness at the posterior
         if c["mode"] == "posterior":
             expected = log_z
@@ -560,7 +622,8 @@ def body(c):
                 expected = log_z + float(np.mean(lq)) + H
             if off(expected) > TOL:
                 t_outer = bool(two and ss[0] > 1 and off(outer * expected) <= TOL)
-                _fail_once(res, "mismatch:logz", dict(where, value=val.tolist(), expected=expected, log_z=log_z), times_outer=t_outer, **rt)
+                _fail_once(res, "mismatch:logz", dict(where, value=val.tolist(), expected=expected, log_z=log_z), times_outer=t_outer,
+                           f32_logk=logk(expected), **rt)
             # the posterior handed to q really is the posterior: log p - log q is flat
             flat = float(np.max(np.abs(lp - lq - log_z))) / max(abs(log_z), scale)
             if flat > TOL:
@@ -645,6 +708,8 @@ def block(draw, mode, kinds=KINDS, need_plain_normal=False):
         if route == "unres_affine":
             b["tloc"] = draw(fl(-3.0, 3.0))
             b["tscale"] = draw(logu(0.1, 10.0)) * draw(st.sampled_from([1.0, -1.0]))
+    # how each hyper-parameter is written: bare JSON number (scalars), list, or Parameter object
+    b["forms"] = {name: draw(st.sampled_from(FORMS)) for name in ("prior.p0", "prior.p1", "like.p")}
     if mode == "perturbed":
         # arbitrary member of the family of the sampled variable
         qk = "gamma" if k in GAMMA else {"nn": "lognormal" if route == "setter_exp" else "normal", "betabin": "beta", "mvn": "mvn"}[k]
@@ -712,6 +777,7 @@ def cases(mode):
             c["q_par"] = draw(st.sampled_from(["scale_tril", "scale_tril_unres", "covariance_matrix", "precision_matrix"]))
         c["q_exp"] = draw(st.booleans())
         c["q_inline"] = draw(st.booleans())
+        c["f32"] = draw(st.booleans())
         can_entropy = (not has_mvn) or c["q_form"] == "direct"
         c["objective"] = draw(objective(can_entropy))
         if draw(st.integers(0, 2)) == 0:
@@ -775,6 +841,55 @@ def grid(tier):
     return out
 
 
+# --------------------------------------------------------------------------- enumeration: default dtype x hyper-parameter form
+# hyper-parameters that float32 cannot represent (2.1, 0.1, 0.3, 0.7, 1.3, 2.2 ...)
+_FIXED_NR = {
+    "gexp": {"a": [2.1], "b": [0.1], "data": [[0.5], [1.2], [0.1], [2.3]]},
+    "gpois": {"a": [2.6], "b": [0.7], "data": [[3.0], [0.0], [7.0]]},
+    "ggam": {"a": [2.3], "b": [0.7], "shape": [1.7], "data": [[3.3], [0.2], [7.1]]},
+    "nn": {"m0": [0.3], "s0": [0.8], "sigma": [0.7], "lik": "normal", "data": [[0.1], [0.9], [0.4], [-0.2], [0.7]]},
+    "betabin": {"alpha": [1.3], "beta": [2.2], "N": [[5.0]], "data": [[2.0]]},
+    "mvn": {"m0": [0.1, -0.4], "S0": [[2.1, 0.3], [0.3, 1.1]], "Sigma": [[1.3, 0.0], [0.0, 0.6]], "lik": "diag",
+            "data": [[0.5, 1.1], [1.5, -1.0], [0.0, 0.2]], "prior_par": "covariance_matrix"},
+}
+_OBJS_DT = [{"type": "ELBO", "samples": 4}, {"type": "ELBO", "samples": 3, "entropy": True}, {"type": "ELBO", "samples": [3, 4]},
+            {"type": "ELBO", "samples": [2, 3]}, {"type": "VR", "samples": [5], "alpha": 0.3}, {"type": "VR", "samples": [2, 3], "alpha": 2.0},
+            {"type": "CUBO", "samples": 4, "n": 2.7}, {"type": "KLpq", "samples": 6}]
+
+
+def dtype_grid(tier):
+    out = []
+    i = 0
+    for k in KINDS:
+        for route in ROUTES[k]:
+            for o in _OBJS_DT:
+                for form in FORMS:
+                    for f32 in (True, False):
+                        if not f32 and form != "num":
+                            continue  # float64 default with lists / Parameters is the main grid's setting
+                        for mode in ("posterior", "perturbed"):
+                            b = dict(_FIXED_NR[k], kind=k, route=route, forms={"prior.p0": form, "prior.p1": form, "like.p": form})
+                            if k in GAMMA and route in ("prior_affine", "unres_affine"):
+                                b["tloc"], b["tscale"] = 0.0, 2.3
+                            if k in ("nn", "mvn") and route in ("prior_affine", "unres_affine", "setter"):
+                                b["tloc"], b["tscale"] = 0.4, -1.7
+                            if k == "betabin" and route in ("prior_affine", "unres_affine"):
+                                b["tloc"], b["tscale"] = 1.0, -1.0
+                            if mode == "perturbed":
+                                qk = "gamma" if k in GAMMA else {"nn": "lognormal" if route == "setter_exp" else "normal", "betabin": "beta", "mvn": "mvn"}[k]
+                                b["q"] = _FIXED_Q[qk]
+                            i += 1
+                            c = {"mode": mode, "torch_seed": 5000 + i, "blocks": [b], "joint_style": ("flat", "jacobian", "prior_like")[i % 3],
+                                 "q_form": "direct" if k == "mvn" else "joint", "q_exp": bool(i % 2), "q_inline": False, "f32": f32,
+                                 "objective": dict(o)}
+                            if k == "mvn":
+                                c["q_par"] = ("scale_tril", "scale_tril_unres", "covariance_matrix", "precision_matrix")[i % 4]
+                            if i % 4 == 0 and not o.get("entropy"):
+                                c["override"] = [2, 3]
+                            out.append(c)
+    return out
+
+
 # =========================================================================== oracle calibration
 def selftest():
     # literals of DESIGN.md (prototype runs) and closed forms against quadrature / Bayes' identity
@@ -809,4 +924,5 @@ def subchecks(tier):
         Sub("exact", body, strategy=cases("posterior"), quick=1600, thorough=40000, pretags=pretags),
         Sub("pairing", body, strategy=cases("perturbed"), quick=1600, thorough=40000, pretags=pretags),
         Sub("grid", body, enumerate=grid, exhaustive=True, pretags=pretags),
+        Sub("dtype", body, enumerate=dtype_grid, exhaustive=True, pretags=pretags),
     ]
